@@ -150,3 +150,108 @@ sk_far:
 	ADDQ	$6, AX
 	MOVQ	AX, ·Result(SB)
 	RET
+
+// load (7) + CMP (4) + JLE rel8 (2) = 13 bytes: a conditional branch goom's widening table does not
+// know; refusal expected when the placeholder is out of rel8 range, never a different condition
+TEXT ·ShapeJLE(SB), NOSPLIT, $0-0
+	MOVQ	·Input(SB), AX
+	CMPQ	AX, $7
+	JLE	s12_t
+	ADDQ	$20, AX
+	MOVQ	AX, ·Result(SB)
+	RET
+s12_t:
+	MOVQ	$-2000, AX
+	ADDQ	·Input(SB), AX
+	MOVQ	AX, ·Result(SB)
+	RET
+
+// load (7) + CMP (4) + JGE rel8 (2) = 13 bytes: a conditional branch goom's widening table does not
+// know; refusal expected when the placeholder is out of rel8 range, never a different condition
+TEXT ·ShapeJGE(SB), NOSPLIT, $0-0
+	MOVQ	·Input(SB), AX
+	CMPQ	AX, $7
+	JGE	s13_t
+	ADDQ	$21, AX
+	MOVQ	AX, ·Result(SB)
+	RET
+s13_t:
+	MOVQ	$-2100, AX
+	ADDQ	·Input(SB), AX
+	MOVQ	AX, ·Result(SB)
+	RET
+
+// load (7) + CMP (4) + JHI rel8 (2) = 13 bytes: a conditional branch goom's widening table does not
+// know; refusal expected when the placeholder is out of rel8 range, never a different condition
+TEXT ·ShapeJHI(SB), NOSPLIT, $0-0
+	MOVQ	·Input(SB), AX
+	CMPQ	AX, $7
+	JHI	s14_t
+	ADDQ	$22, AX
+	MOVQ	AX, ·Result(SB)
+	RET
+s14_t:
+	MOVQ	$-2200, AX
+	ADDQ	·Input(SB), AX
+	MOVQ	AX, ·Result(SB)
+	RET
+
+// load (7) + CMP (4) + JCC rel8 (2) = 13 bytes: a conditional branch goom's widening table does not
+// know; refusal expected when the placeholder is out of rel8 range, never a different condition
+TEXT ·ShapeJCC(SB), NOSPLIT, $0-0
+	MOVQ	·Input(SB), AX
+	CMPQ	AX, $7
+	JCC	s15_t
+	ADDQ	$23, AX
+	MOVQ	AX, ·Result(SB)
+	RET
+s15_t:
+	MOVQ	$-2300, AX
+	ADDQ	·Input(SB), AX
+	MOVQ	AX, ·Result(SB)
+	RET
+
+// load (7) + CMP (4) + JCS rel8 (2) = 13 bytes: a conditional branch goom's widening table does not
+// know; refusal expected when the placeholder is out of rel8 range, never a different condition
+TEXT ·ShapeJCS(SB), NOSPLIT, $0-0
+	MOVQ	·Input(SB), AX
+	CMPQ	AX, $7
+	JCS	s16_t
+	ADDQ	$24, AX
+	MOVQ	AX, ·Result(SB)
+	RET
+s16_t:
+	MOVQ	$-2400, AX
+	ADDQ	·Input(SB), AX
+	MOVQ	AX, ·Result(SB)
+	RET
+
+// load (7) + CMP (4) + JMI rel8 (2) = 13 bytes: a conditional branch goom's widening table does not
+// know; refusal expected when the placeholder is out of rel8 range, never a different condition
+TEXT ·ShapeJMI(SB), NOSPLIT, $0-0
+	MOVQ	·Input(SB), AX
+	CMPQ	AX, $7
+	JMI	s17_t
+	ADDQ	$25, AX
+	MOVQ	AX, ·Result(SB)
+	RET
+s17_t:
+	MOVQ	$-2500, AX
+	ADDQ	·Input(SB), AX
+	MOVQ	AX, ·Result(SB)
+	RET
+
+// load (7) + CMP (4) + JPL rel8 (2) = 13 bytes: a conditional branch goom's widening table does not
+// know; refusal expected when the placeholder is out of rel8 range, never a different condition
+TEXT ·ShapeJPL(SB), NOSPLIT, $0-0
+	MOVQ	·Input(SB), AX
+	CMPQ	AX, $7
+	JPL	s18_t
+	ADDQ	$26, AX
+	MOVQ	AX, ·Result(SB)
+	RET
+s18_t:
+	MOVQ	$-2600, AX
+	ADDQ	·Input(SB), AX
+	MOVQ	AX, ·Result(SB)
+	RET
